@@ -1,7 +1,7 @@
 //! C17: memory safety and storage invariants of the hand-managed integer storage under
 //! operation histories x allocator faults x crash points x allocator content/placement.
 
-use crate::case::Case;
+use crate::case::{Case, CaseResult};
 use crate::gen;
 use crate::ops::{Fault, FaultKind};
 use crate::prng::{run_seed, Rng};
@@ -41,17 +41,6 @@ pub fn gen_case(seed: u64, index: u64) -> Case {
         garbage_seed: rng.next() | 1,
         ops,
     }
-}
-
-pub struct CaseResult {
-    pub violation: Option<Violation>,
-    pub harness_error: Option<String>,
-    pub chain: u64,
-    /// executions performed for this case (fills x enumerated faults)
-    pub executions: u64,
-    pub fault_points: u64,
-    /// the exact case that failed (e.g. with the enumerated fault placed), if different from the input
-    pub failing: Option<Case>,
 }
 
 fn one(case: &Case, fill: u8, stats: &mut Stats) -> Outcome {
